@@ -346,7 +346,10 @@ class WhileToFor:
             if init is not None and isinstance(init.value, ast.Call) and isinstance(init.value.func, ast.Name) and init.value.func.id == "iter" and len(init.value.args) == 1 \
                     and not any(itn in _names(s) for s in before[before.index(init) + 1:]) and not any(itn in _names(s) for s in w.body) and not loads_after(itn) \
                     and not any(isinstance(n, ast.Name) and n.id == a.target.id and isinstance(n.ctx, ast.Store) for s in w.body for n in ast.walk(s)):
-                return ast.copy_location(ast.For(target=ast.Name(id=a.target.id, ctx=ast.Store()), iter=init.value.args[0], body=w.body, orelse=[], type_comment=None), w)
+                res = ast.copy_location(ast.For(target=ast.Name(id=a.target.id, ctx=ast.Store()), iter=init.value.args[0], body=w.body, orelse=[], type_comment=None), w)
+                if init in before and isinstance(init.value.args[0], (ast.Name, ast.Attribute)):
+                    res._drop_init = init      # iter(X) consumed nothing yet: the iterator object is dead once the loop walks X itself
+                return res
         # A: i = A0 ... while i < N: body; i += 1
         if isinstance(op, ast.Lt) and isinstance(a, ast.Name) and _is_incr(w.body[-1], a.id, +1) and not stores_in_body(a.id):
             i = a.id
